@@ -266,6 +266,8 @@ pub struct RunOut {
     pub files_created: u64,
     /// bytes charged to the disk manager by each non-empty push (fault-free prefix)
     pub push_bytes: Vec<u64>,
+    /// rows of each non-empty push
+    pub push_rows: Vec<usize>,
     pub read_errors: u64,
     pub fault_triggered: bool,
     pub sched_fp: u64,
@@ -392,6 +394,7 @@ pub fn run_history(sc: &Scenario, fault: &Fault, choose: &mut dyn FnMut(usize) -
                         if rows > 0 {
                             push_idx += 1;
                             out.push_bytes.push(used1.saturating_sub(used0));
+                            out.push_rows.push(rows);
                         }
                         let err = r.as_ref().err().map(|e| e.to_string().chars().take(160).collect::<String>()).unwrap_or_default();
                         out.trace.push(format!("w{h}.push_batch(id={id}, rows={rows}) -> {}", if r.is_ok() { "Ok".to_string() } else { format!("Err({err})") }));
@@ -590,7 +593,7 @@ pub fn prefixes(sc: &Scenario, depth: usize, root: &Path) -> Vec<Vec<usize>> {
 
 /// Exhaustive stateless DFS over scheduler choice vectors that start with `prefix`.
 /// Returns (schedules, complete?)
-pub fn explore_exhaustive(sc: &Scenario, prefix: &[usize], cap: u64, rep: &Report, root: &Path, selftest: u64) -> (u64, bool) {
+pub fn explore_exhaustive(sc: &Scenario, prefix: &[usize], budget: &std::sync::atomic::AtomicI64, rep: &Report, root: &Path, selftest: u64) -> (u64, bool) {
     with_rt(|rt| {
         let ctx = Ctx { rt, root, selftest };
         let mut path: Vec<(usize, usize)> = prefix.iter().map(|c| (*c, 0)).collect();
@@ -624,7 +627,8 @@ pub fn explore_exhaustive(sc: &Scenario, prefix: &[usize], cap: u64, rep: &Repor
                     break;
                 }
             }
-            if n >= cap {
+            // the budget is shared by all subtrees of one scenario
+            if budget.fetch_sub(1, Ordering::SeqCst) <= 0 {
                 return (n, false);
             }
         }
@@ -649,6 +653,62 @@ pub fn random_history(rep: &Report, seed: u64, idx: u64, root: &Path, selftest: 
         rep.violation(sig, witness(&sc, &Fault::None, &choices, &out, "sequential-random"));
     } else if idx == 0 && rep.want_sample() {
         rep.sample(json!({"layer": "sequential-random", "scenario": sc.to_json(), "operations": out.trace}));
+    }
+}
+
+/// Byte layout of what one push writes: stream header (schema message) when it opens a new file,
+/// the record-batch message, and the end-of-stream marker when it rotates the file.
+struct Layout {
+    header: u64,
+    eos: u64,
+}
+
+fn layout(root: &Path) -> &'static Layout {
+    static L: std::sync::OnceLock<Layout> = std::sync::OnceLock::new();
+    L.get_or_init(|| {
+        let bytes_of_first_push = |threshold: usize| -> (u64, u64) {
+            let env = make_env(root, false);
+            let (w, _r) = open_channel(&env, false, threshold);
+            let _ = w.push(&make_batch(1, BASE_ROWS));
+            let a = env.dm().used_disk_space();
+            let _ = w.push(&make_batch(2, BASE_ROWS));
+            (a, env.dm().used_disk_space() - a)
+        };
+        let (first, second) = bytes_of_first_push(usize::MAX); // header + message, message
+        let (rot, _) = bytes_of_first_push(0); // header + message + eos
+        Layout { header: first - second, eos: rot - first }
+    })
+}
+
+fn message_bytes(root: &Path, rows: usize) -> u64 {
+    static M: std::sync::Mutex<std::collections::BTreeMap<usize, u64>> = std::sync::Mutex::new(std::collections::BTreeMap::new());
+    if let Some(v) = M.lock().unwrap().get(&rows) {
+        return *v;
+    }
+    let env = make_env(root, false);
+    let (w, _r) = open_channel(&env, false, usize::MAX);
+    let _ = w.push(&make_batch(1, rows));
+    let a = env.dm().used_disk_space();
+    let _ = w.push(&make_batch(2, rows));
+    let m = env.dm().used_disk_space() - a;
+    M.lock().unwrap().insert(rows, m);
+    m
+}
+
+/// which internal step of push k the quota offset `delta` makes fail
+fn failure_step(root: &Path, total: u64, rows: usize, delta: u64) -> &'static str {
+    let l = layout(root);
+    let m = message_bytes(root, rows);
+    let opens = total >= l.header + m;
+    let h = if opens { l.header } else { 0 };
+    if delta < h {
+        "stream-header-write(new file)"
+    } else if delta < h + m {
+        "batch-message-write"
+    } else if total == h + m + l.eos {
+        "finish-at-rotation"
+    } else {
+        "unclassified"
     }
 }
 
@@ -703,6 +763,13 @@ pub fn fault_sweep(rep: &Report, seed: u64, idx: u64, root: &Path) {
             rep.case(fp_mix(sc.fp(), fp_mix(out.sched_fp, vcommon::fp_str(&format!("{fault:?}")))), false);
         } else {
             rep.count(&format!("l3_push_failures_injected/{kind}"), 1);
+            if let Fault::Quota { push_k, delta, .. } = &fault {
+                let step = failure_step(root, dry.push_bytes[*push_k], dry.push_rows[*push_k], *delta);
+                rep.count(&format!("l3_quota_failure_step/{step}"), 1);
+                if out.violation.is_some() {
+                    rep.count(&format!("l3_quota_failure_step_violating/{step}"), 1);
+                }
+            }
             if let Fault::Quota { push_k, .. } | Fault::CreateFail { push_k } = &fault {
                 rep.seen("l3_failed_push_index", &format!("{push_k:02}"));
             }
